@@ -25,15 +25,20 @@ CHECKS = {
  'C02': dict(
    text='Coq theorem C02_yield (any table, any token sequence, any stack depth): the tree returned by the shunting-yard loop of '
         'OperatorTable._compile reads back, in order, as exactly the tokens consumed (stack invariants over '
-        '_operator_marker/_outer_checkpoint). Tree shape and extent (precedence, associativity, non-chaining of non-associative '
+        '_operator_marker/_outer_checkpoint). Coq theorem C02_precedence_and_associativity (PrecOk.v; any table, any token '
+        'sequence, no bound): the returned tree is well-formed for the table - at every infix node the operators on the facing '
+        'spines of the operands sit in tighter rows, or in the same row on the side its associativity allows, so operators of a '
+        'non-associative row are never chained; prefix/postfix nodes dominate the facing spine of their operand strictly - '
+        'proved by a stack invariant of the loop (pop_while/prec_loop/postfixes); the extracted judgement pok is applied to '
+        'every tree the real parser returns. Tree shape and extent (precedence, associativity, non-chaining of non-associative '
         'rows, prefix/postfix attachment, dangling operator left unconsumed) are stated by an independent precedence-climbing '
         'reference (Pratt.v); loop = reference is proved inside the kernel for ALL token strings up to length 5-9 over five '
         'tables covering every row kind and shared spellings (finite theorems), and checked against the implementation on '
         'every run. Correspondence: random tables x all token strings up to length 5: expression-level model (raw triples '
         'incl. failure position), token-level loop model, the reference, and the yield judge on every successful parse; '
         'character-level tables (++ vs +, mixfix, ignore) through the expression-level model.',
-   note=TB + 'Known finding: a postfix operator is preferred over a longer infix operator of another row matching at the same place. Character-level tables with overlapping multi-character spellings and tables written inline inside another table are judged by the rule of the property (ordered inside a row, longest across rows) + the token-level reference. partial: the unbounded equivalence loop = reference (wf_prec/uniqueness) is not proved; mixfix rows are covered by correspondence and by C01\'s Longest/Choice semantics only.',
-   technique='Coq proof of the yield invariant + kernel-computed finite equivalence with a reference + differential correspondence',
+   note=TB + 'Known finding: a postfix operator is preferred over a longer infix operator of another row matching at the same place. Character-level tables with overlapping multi-character spellings and tables written inline inside another table are judged by the rule of the property (ordered inside a row, longest across rows) + the token-level reference. partial: precedence/associativity well-formedness and the yield are proved without bound; uniqueness of a well-formed tree with a given yield and the maximal-extent clause are carried by the finite kernel sweeps loop = reference and by the differential runs; mixfix rows are covered by correspondence and by C01\'s Longest/Choice semantics only.',
+   technique='Coq proofs of the yield invariant and of precedence/associativity well-formedness (stack invariants of the loop, unbounded) + kernel-computed finite equivalence with a reference + differential correspondence',
    ref='DESIGN.md §6 C02'),
  'C03': dict(
    text='Same refinement theorem as C01 specialised to bounded repetition (literal and run-time bounds; a run-time lower bound above the upper '
